@@ -9,6 +9,48 @@ CLAIMS = {
         "note": "Decides the formulas for the enumerated shapes (all shapes the tables support; contraction operators on ranks <= 3). Does not decide construction-time simplification inside as_tensor etc. (C05). " + TB,
         "technique": "abstract interpretation of the formula tables into Q[x] (constant propagation of shapes, unrolling, inlining) + exact polynomial normal forms against an oracle",
     },
+    "C02": {
+        "level": "other",
+        "text": "Rule-table soundness of the derivative rulesets: for each of the 7 rulesets x every concrete expression type the resolved rule is checked for exhaustiveness, operand arity and unjustified zero rules; every operator rule of Generic/GateauxDerivativeRuleset with a reference model (arithmetic, power, abs/conj/real/imag, 13 math functions, atan2, 4 Bessel families, min/max, conditional, restrictions, indexing, list/component tensors, index sums, variables, averages) is lifted from source on symbolic operands (scalar, free indices, variable shapes (),(2,)[,(2,2)]) and shown equal to the formal derivative of the node type it is registered for; Gateaux terminal rules incl. user-supplied coefficient-derivative relations are lifted; memo tables in the dispatchers must be keyed by all inputs of the cached value. Necessary conditions of the property, not the whole property.",
+        "note": "Not decided: argument pairing in formoperators.derivative, BaseFormOperator rules, component-wise variations in the Gateaux Grad rule, composition over whole expressions (follows from the per-node homomorphism only under the traversal's correctness, see C19). " + TB,
+        "technique": "dispatch-table resolution on the AST + abstract interpretation of rule bodies into a term algebra compared with a calculus oracle (exact for rational rules, random interpretation for transcendental ones) + memo-key dataflow rule",
+    },
+    "C03": {
+        "level": "other",
+        "text": "GradRuleset/ReferenceGradRuleset: table checks; all generic operator rules lifted for gradient variable shapes and compared with the formal derivative; every terminal rule lifted on symbolic terminals for (gdim,tdim) in {(2,2),(3,3),(3,2)} with the ruleset object produced by lifting its own __init__ (grad x = I, grad X = K, grad f = Grad f or 0 if cell-wise constant, geometry via K[j,i]*rgrad[r,j], nesting guards raise); lowering of div/nabla_div/nabla_grad/curl compared with the index definitions; the dispatcher picks the ruleset and the dimension from the last axis.",
+        "note": "MeshSequence branches not instantiated; is_cellwise_constant / extract_unique_domain are oracles on symbolic terminals. " + TB,
+        "technique": "abstract interpretation of rule bodies into a term algebra vs oracle; dispatch-table and AST guard checks",
+    },
+    "C04": {
+        "level": "other",
+        "text": "VariableRuleset: table checks; generic rules lifted for variable shapes (),(2,),(2,2) (result shape f.shape+v.shape by construction); _make_identity equals the Kronecker identity for ranks 0..3; Variable/Coefficient/ReferenceValue/Grad rules lifted with the ruleset built by lifting __init__: dv/dv = Id exactly for the differentiation variable (same label even if the wrapped expression was rewritten), chain rule / zero otherwise; VariableDerivative construction reports f.shape+v.shape, folds unrelated terminals to the right Zero and rejects variables with free indices.",
+        "note": "Composition over nested variables follows from the per-node rules under traversal correctness (C19); not separately decided. " + TB,
+        "technique": "abstract interpretation of rule bodies into a term algebra vs oracle",
+    },
+    "C07": {
+        "level": "other",
+        "text": "Every GeometryLoweringApplier handler is lifted from source on affine simplices with symbolic vertex coordinates (interval in R^1..3, triangle in R^2..3, tetrahedron; all facets; both orientations for immersed cells) and compared with the quantity computed directly from the vertices (Gram determinants, Cayley-Menger circumradius - symmetric in the vertices, pairwise vertex distances, defining properties of unit normals incl. orientation). Rational identities exact; sqrt/abs/min/max identities by random interpretation of the lifted terms over real vertex coordinates including orientation-reversing cells. Guards for non-affine cells and preserve_types checked.",
+        "note": "Reference simplex numbering (edges/facets/reference normals) is a frozen basix/UFC table in the rule because it lives outside UFL. Non-affine cells: guards only. " + TB,
+        "technique": "abstract interpretation of the lowering handlers on a symbolic affine cell + exact / random-interpretation comparison with a vertex-based oracle",
+    },
+    "C24": {
+        "level": "other",
+        "text": "evaluate() of each operator class (arithmetic, power, abs/conj/real/imag, 13 math functions via the name passed to MathFunction.__init__, atan2, min/max, the six comparisons, and/or/not, conditional, indexed, index sum, component tensor, list tensor, variable, restriction, grad, Identity, PermutationSymbol) is lifted from source on symbolic operands that reject ill-fitting components and unbound indices; for every component and free-index assignment the result must equal the entry of the node's mathematical value, and the index binding table must be restored.",
+        "note": "Not lifted: Bessel (scipy), terminal lookup in the user mapping, derivative callables, expand_derivatives inside Expr.__call__. " + TB,
+        "technique": "abstract interpretation of evaluate() bodies on symbolic operands vs reference semantics; typestate (push/pop restored) via the modelled binding table",
+    },
+    "C25": {
+        "level": "other",
+        "text": "The six comparison operators of SobolevSpace/DirectionalSobolevSpace are evaluated from source by constant propagation (object model with Python's reflected-operand and total_ordering rules) on all ordered pairs of the declared spaces and a finite family of directional spaces; order axioms, agreement with the transitive closure of the literal parent lists, strict product order for directional spaces and membership consistency are checked exhaustively on that domain.",
+        "note": "Finite domain: declared spaces + directional orders in {0,1,2,inf}, length <= 2 (some 3); pairs that raise NotImplementedError are skipped. " + TB,
+        "technique": "exhaustive constant propagation of the comparison methods over the finite table of spaces",
+    },
+    "C26": {
+        "level": "other",
+        "text": "The literal table _sub_entity_celltypes and the Cell/TensorProductCell accessors are evaluated from source by constant propagation for all named cells and entity dimensions -4..tdim+2: Euler characteristic, entity counts/types/dimensions, facet/ridge/peak accessors, ridge-facet incidence, strict total order on cells (all triples). Exhaustive on the finite table.",
+        "note": "weakref.proxy / numbers.Integral modelled as identity / int. " + TB,
+        "technique": "exhaustive constant propagation over the reference-cell table and its accessors",
+    },
     "C08": {
         "level": "other",
         "text": "apply() of every pullback class (identity, co-/contravariant, L2, double co-/contravariant, covariant-contravariant Piola; Mixed and Symmetric compositions) is lifted from source on symbolic reference values with block axes, for square and immersed geometries, and compared exactly with the textbook push-forward; physical_value_shape is lifted and compared with that push-forward's shape; the applier's dispatch table and shape guards are checked. Decides the formulas and layouts for the instantiated shapes (ranks <= mapped+2, dims <= 3), not arbitrary nesting depth.",
